@@ -819,8 +819,12 @@ def check_property(pid, tier, res=None, vres=None, quiet=False):
                 end = m.fns[k + 1][0] if k + 1 < len(m.fns) else len(m.lines) + 1
                 if caller != fid and re.search(r'\b%s\s*\(' % re.escape(short), '\n'.join(m.lines[ln:end - 1])):
                     tainted.add(caller)
-    tainted_failed = {k: v for k, v in failed.items() if k[0] in tainted}
-    failed = {k: v for k, v in failed.items() if k[0] not in tainted}
+    # clauses whose label ends in '~' pin a detail the property statements do not fix (e.g. WHICH error variant a refused
+    # call returns) but that callers' proofs rely on: when such a clause fails the proof chain is broken, not the
+    # property - undecided unless the replay probe finds a failing input
+    detail = {k for k in failed if (k[1] or '').endswith('~')}
+    tainted_failed = {k: v for k, v in failed.items() if k[0] in tainted or k in detail}
+    failed = {k: v for k, v in failed.items() if k[0] not in tainted and k not in detail}
     if pid == 'C10':
         for e in res['errors']:
             if e.get('fn') in newf and e['kind'] != 'resource':
@@ -922,7 +926,7 @@ def check_property(pid, tier, res=None, vres=None, quiet=False):
             print(l)
         raise Undecided('obligation(s) %s failed in function(s) whose proof hints lost their anchor (%s)%s; no counterexample available -> not reported as a violation'
                         % (sorted('%s#%s' % k for k in tainted_failed), sorted({h['anchor'] for h in lost_hints if h['fn'] in {k[0] for k in tainted_failed}})[:3],
-                           (' or that are / call new functions without a contract (%s)' % ', '.join(sorted(newf))) if newf else ''))
+                           ((' or that are / call new functions without a contract (%s)' % ', '.join(sorted(newf))) if newf else '') + (' or that only pin a detail the property does not state (label~)' if detail else '')))
     elif resource and not pf:
         raise Undecided('resource limit / solver give-up in %s' % sorted({e.get('fn') for e in resource}))
     # evidence
